@@ -3,6 +3,7 @@ package props
 import (
 	"context"
 	"fmt"
+	"os"
 	"sort"
 	"strings"
 	"time"
@@ -144,6 +145,61 @@ func selfScenarios() []*explore.Scenario {
 		vsched.Go("p", func() { m.Lock(); panic("boom") })
 		vsched.Go("q", func() { m.Lock(); s.x++; m.Unlock() })
 	})
+	// race-mode self-tests: per-task state only
+	add("race/racy", func(s *selfState) {
+		shared := new(int)
+		for i := 0; i < 2; i++ {
+			vsched.Go("w", func() {
+				vsched.Yield("before", 0)
+				*shared = *shared + 1
+				vsched.Yield("after", 0)
+			})
+		}
+	})
+	add("race/clean", func(s *selfState) {
+		shared := new(int)
+		var mu vsync.Mutex
+		ch := make(chan int, 1)
+		vsched.Go("w1", func() { mu.Lock(); *shared++; mu.Unlock(); vsched.Send("s", ch, 1) })
+		vsched.Go("w2", func() {
+			mu.Lock()
+			*shared++
+			mu.Unlock()
+			vsched.Recv("r", ch)
+			mu.Lock()
+			*shared++
+			mu.Unlock()
+		})
+	})
+	add("race/handoff", func(s *selfState) {
+		// ownership passed through an unbuffered channel: no race
+		ch := make(chan *int)
+		vsched.Go("producer", func() { v := new(int); *v = 42; vsched.Send("s", ch, v) })
+		vsched.Go("consumer", func() { v := vsched.Recv("r", ch); *v = *v + 1 })
+	})
+	add("race/once", func(s *selfState) {
+		var o vsync.Once
+		n := new(int)
+		for i := 0; i < 3; i++ {
+			vsched.Go("o", func() { o.Do(func() { vsched.Yield("in-once", 0); *n++ }); _ = *n })
+		}
+	})
+	add("race/select", func(s *selfState) {
+		ch := make(chan *int)
+		quit := make(chan struct{})
+		vsched.Go("producer", func() {
+			v := new(int)
+			*v = 1
+			vsched.Select("p", false, vsched.SendCase(ch, v), vsched.RecvCase(quit))
+		})
+		vsched.Go("consumer", func() {
+			i, v, _ := vsched.Select("c", false, vsched.RecvCase(ch), vsched.RecvCase(quit))
+			if i == 0 {
+				*(v.(*int))++
+			}
+		})
+		vsched.Go("quitter", func() { vsched.CloseChan("q", quit) })
+	})
 	add("choose", func(s *selfState) {
 		a := vsched.Choose("a", 3, true)
 		b := vsched.Choose("b", 2, true)
@@ -255,6 +311,35 @@ func selftest(c *core.Ctx) {
 			fail("cache", "%s: uncached %d executions outcomes %q; cached %d executions (%d pruned) outcomes %q", name, a.Execs, ka, b.Execs, b.Pruned, kb)
 		}
 		c.Set("cache_check "+name, fmt.Sprintf("uncached %d executions, cached %d (%d cut short), same %d outcomes", a.Execs, b.Execs, b.Pruned, len(ka)))
+	}
+	// race mode: the detector must report the unsynchronised pair on the
+	// serialised schedules, and nothing else (engine, shims, clean programs)
+	if _, err := os.Stat(explore.RaceBinary()); err == nil {
+		for _, tc := range []struct {
+			name string
+			want bool
+		}{{"race/racy", true}, {"race/clean", false}, {"race/handoff", false}, {"race/once", false}, {"race/select", false}, {"cancel", false}, {"lockorder", false}} {
+			sc := Lookup("SELFTEST", tc.name)
+			st, reps, err := explore.RaceRun("SELFTEST", sc, explore.Options{PBound: 2}, true, nil)
+			if err != nil {
+				fail("race-mode", "%s: %v", tc.name, err)
+				continue
+			}
+			c.Count(st.Execs, st.States, st.Steps, st.Execs)
+			if tc.want && len(reps) == 0 {
+				fail("race-mode", "%s: the unsynchronised increments were not reported in %d executions", tc.name, st.Execs)
+			}
+			if !tc.want && len(reps) > 0 {
+				fail("race-mode", "%s: %d spurious race report(s):\n%s", tc.name, len(reps), reps[0].Text)
+			}
+			if tc.want && len(reps) > 0 && !strings.Contains(reps[0].Text, "selftest.go") {
+				fail("race-mode", "%s: unexpected report:\n%s", tc.name, reps[0].Text)
+			}
+			c.Set("race_mode "+tc.name, fmt.Sprintf("%d executions, %d race report(s)", st.Execs, len(reps)))
+		}
+		c.Set("race_mode", "available")
+	} else {
+		c.Set("race_mode", "race-detector build not present; race-mode self-tests skipped")
 	}
 	// determinism: replay one schedule twice
 	sc := Lookup("SELFTEST", "selectsend")
